@@ -12,6 +12,17 @@ import numpy as np
 EW_OPS = [("add", operator.add), ("sub", operator.sub), ("mul", operator.mul), ("truediv", operator.truediv), ("lt", operator.lt), ("maximum", np.maximum)]
 
 
+def _Norm(x, ax):
+    from EasyFEA.FEM._linalg import Norm
+
+    return Norm(x, axis=ax) if ax is not None else Norm(x)
+
+
+# reducers reach a FeArray through three routes: methods, numpy functions (array-function protocol) and the library's wrappers
+REDUCERS = [("sum", lambda x, ax: x.sum() if ax is None else x.sum(axis=ax)), ("np.mean", lambda x, ax: np.mean(x, axis=ax)), ("np.max", lambda x, ax: np.max(x, axis=ax)),
+            ("np.linalg.norm", lambda x, ax: np.linalg.norm(x, axis=ax)), ("Norm", _Norm)]
+
+
 def mk(desc, rng):
     from EasyFEA.FEM import FeArray
 
@@ -37,9 +48,8 @@ def lead_of(a, b):
 def expected_values(op, fn, a, b, A, B, arg):
     """explicit loops over (e, p) on plain arrays -> dense expected array"""
     if op == "reduce":
-        if arg == 99:
-            return A.sum()
-        return A.sum(axis=arg)
+        red = fn or (lambda x, ax: x.sum() if ax is None else x.sum(axis=ax))
+        return red(A, None if arg == 99 else arg)
     if op == "broadcast":
         ne, npg = a["shape"][:2]
         tn = arg
@@ -90,7 +100,7 @@ def run_case(cs, seed):
     rng = np.random.default_rng(seed)
     A_fe, A = mk(a, rng)
     B_fe, B = mk(b, rng) if op in ("ew", "matmul", "dot", "ddot", "broadcast") else (None, None)
-    variants = EW_OPS if op == "ew" else [(op, None)]
+    variants = EW_OPS if op == "ew" else REDUCERS if op == "reduce" else [(op, None)]
     for vname, fn in variants:
         got, exc = None, None
         try:
@@ -106,7 +116,7 @@ def run_case(cs, seed):
                 elif op == "T":
                     got = A_fe.T
                 elif op == "reduce":
-                    got = A_fe.sum() if arg == 99 else A_fe.sum(axis=arg)
+                    got = fn(A_fe, None if arg == 99 else arg)
                 elif op == "det":
                     got = Det(A_fe)
                 elif op == "trace":
